@@ -575,11 +575,23 @@ type vRun struct {
 	trigAt  int
 	trigCh  chan struct{}
 	nEvents int
+	wireLines int
 }
+
+const vMaxWireLines = 40000 // per scenario: a livelocked run must not produce an unbounded log
 
 func (r *vRun) logf(format string, a ...any) {
 	r.mu.Lock()
 	defer r.mu.Unlock()
+	if strings.HasPrefix(format, "e2e tx ") || strings.HasPrefix(format, "e2e rx ") {
+		r.wireLines++
+		if r.wireLines == vMaxWireLines {
+			r.l.line("e2e truncated", fmt.Sprintf("%d", vMaxWireLines))
+		}
+		if r.wireLines >= vMaxWireLines {
+			return
+		}
+	}
 	s := fmt.Sprintf(format, a...)
 	if i := strings.Index(s, " -> "); i >= 0 {
 		r.l.line(s[:i], s[i+4:])
@@ -919,6 +931,12 @@ func (r *vRun) runTransfer() {
 				}
 				if sc.mode == "api" {
 					r.apiBadCalls(i, streams[i], mi)
+					if os.Getenv("VERIF_DEBUG") != "" {
+						a := r.as[sc.streams[i].dir]
+						a.lock.RLock()
+						r.logf("e2e dbg %d wp=%v pen=%d inf=%d cwnd=%d rwnd=%d", mi, a.writePending, a.pendingQueue.size(), a.inflightQueue.size(), a.CWND(), a.RWND())
+						a.lock.RUnlock()
+					}
 				}
 				p := vPayload(uint64(sc.seed)<<32|uint64(sc.idx)<<16|uint64(mi), m.size)
 				if sc.mode == "api" && sc.blockWrite && mi%3 == 0 {
@@ -1066,6 +1084,9 @@ func vRunScenario(t *testing.T, l *vlog, sc *vScenario) {
 			run.logf("e2e rx %d %d %d", to, idx, now.Microseconds())
 		}
 		run.logf("e2e new %s %d %d %s", sc.mode, sc.seed, sc.idx, sc.header())
+		run.mu.Lock()
+		l.w.Flush() // if this scenario deadlocks the bubble the process dies: its header must be on disk
+		run.mu.Unlock()
 		defer run.teardown()
 		switch sc.mode {
 		case "handshake":
